@@ -236,38 +236,14 @@ def run(chk):
     dm = chk.repo.cls(*DAILY_MODEL)
     cp = method(chk, dm, "_create_params_from_fit_model")
     dfd = method(chk, dm, "from_dict")
-    dmp = chk.repo.cls("opendsm.eemeter.models.daily.parameters", "DailyModelParameters")
-    top_fields = {n for n, (a, v, s) in dmp.attrs.items() if a is not None}
-    ctor = [c for c in calls_in(cp.node) if unparse(c.func) == "DailyModelParameters"]
-    wk = {k.arg: k.value for k in ctor[0].keywords} if ctor else {}
     DDOC = [p_ for p_ in dfd.params if p_ not in ("cls", "self")][0]
     dobjs = returned_names(dfd)
     if len(dobjs) != 1:
         raise AnalysisError(f"{dfd.key}: expected from_dict to build and return one model object; returns {dobjs}")
     DOBJ = dobjs[0]
-    rk = _keys_read(dfd.node, DDOC)
-    for k in sorted(top_fields | set(wk) | set(rk)):
-        r1.require(k in top_fields and k in wk and k in rk, f"{dm.key}|key:{k}", dfd.where(), f"daily key `{k}`: declared={k in top_fields} written={k in wk} read={k in rk}", sample={"family": "daily", "key": k})
-    info_lit = wk.get("info")
-    iw = {const_str(k): v for k, v in zip(info_lit.keys, info_lit.values)} if isinstance(info_lit, ast.Dict) else {}
-    ir = _keys_read(dfd.node, "info")
-    for k, attr in (("disqualification", "disqualification"), ("warnings", "warnings"), ("baseline_timezone", "baseline_timezone")):
-        w_ok = k in iw and f"self.{attr}" in unparse(iw[k])
-        r_ok = k in ir and any(flows_from(dfd, st, v, ir[k]) for st, recv, v in attr_stores(dfd, attr, self_ok=False))
-        r1.require(w_ok and r_ok, f"{dm.key}|info.{k}", dfd.where(), f"daily info.{k} must be written from self.{attr} and read back into the model's {attr}", sample={"family": "daily", "key": f"info.{k}"})
-    for k in ir:
-        r1.require(k in iw, f"{dfd.key}|reads:info.{k}|written", dfd.where(), f"from_dict reads info.{k}, which is never written")
-    # warnings are decoded into warning objects with all three fields
-    dec = [c for c in ast.walk(dfd.node) if isinstance(c, ast.Call) and unparse(c.func) == "EEMeterWarning"]
-    ok = bool(dec) and {k.arg for k in dec[0].keywords} == {"qualified_name", "description", "data"}
-    r1.require(ok, f"{dfd.key}|warning-decoding", dfd.where(), "stored warnings must be decoded back into EEMeterWarning(qualified_name, description, data)")
-    sub = chk.repo.cls("opendsm.eemeter.models.daily.parameters", "DailySubmodelParameters")
-    sctor = [c for c in calls_in(cp.node) if unparse(c.func) == "DailySubmodelParameters"]
-    sw = {k.arg for k in sctor[0].keywords} if sctor else set()
-    sfields = {n for n, (a, v, s) in sub.attrs.items() if a is not None}
-    r1.require(sw == sfields, f"{cp.key}|submodel-fields", cp.where(), f"DailySubmodelParameters fields {sorted(sfields)} vs written {sorted(sw)}")
-    # settings source
-    r1.require("settings" in wk and unparse(wk["settings"]) == "self.settings.model_dump()", f"{cp.key}|settings", cp.where(), "daily settings must be written from self.settings.model_dump()")
+    # symbolic round trip: _create_params_from_fit_model and from_dict interpreted back to back (rules/daily_roundtrip.py)
+    from rules.daily_roundtrip import check as daily_round_trip
+    daily_round_trip(chk, r1, dm, cp, dfd)
     # daily state coverage
     dpred = method(chk, dm, "predict")
     DP = _fitted_reach(chk, dpred, dm)
